@@ -31,7 +31,7 @@ from pathlib import Path
 ROOT = Path(__file__).resolve().parent.parent
 LEAN = ROOT / 'lean'
 REPO = Path(os.environ.get('PFST_REPO', '/repo'))
-EVIDENCE = ROOT / 'evidence'
+EVIDENCE = Path(os.environ['VERIF_EVIDENCE_DIR']) if os.environ.get('VERIF_EVIDENCE_DIR') else ROOT / 'evidence'   # mutation trials write elsewhere
 REPLAYS = ROOT / 'replays'
 KNOWN = ROOT / 'known_findings.json'
 
